@@ -236,6 +236,15 @@ def harness_cc(variant="plain"):
     return cc, cflags + base + extra_defs, ld
 
 
+def src_define(relpath, name, default):
+    """value of `#define <name> (<number>)` in a source file of the tree under test (buffer sizes the harnesses scale to)"""
+    try:
+        m = re.search(r"#define\s+%s\s+\(?(\d+)\)?" % name, open(os.path.join(REPO, relpath)).read())
+        return int(m.group(1)) if m else default
+    except OSError:
+        return default
+
+
 def compile_harness(src, outbin, variant="plain", extra=(), link_lib=True, extra_src=()):
     """compile /verif/harness/<src> against variant's liball.a"""
     d = build(variant)
